@@ -306,7 +306,18 @@ func (w *world) key(hist []Ev) string {
 		if st, ok := w.r.fake.StateOf(c.ID); ok {
 			actual = st.String()
 		}
-		fmt.Fprintf(&sb, "<closed=%v belief=%s/%s{%s} unused=%v actual=%s>", c.Closed, c.Charset, c.Coll, renderMap(c.Vars), c.Unused, actual)
+		// hidden sharing: a Variable object of the connection's belief that is the very
+		// object a session holds (a later SET of that session would rewrite the belief)
+		var shared []string
+		for i, se := range w.ses {
+			for name, p := range server.VerifSessionVarPtrs(se) {
+				if c.VarPtrs[name] == p {
+					shared = append(shared, fmt.Sprintf("%s~s%d", name, i))
+				}
+			}
+		}
+		sort.Strings(shared)
+		fmt.Fprintf(&sb, "<closed=%v belief=%s/%s{%s} unused=%v shared=%v actual=%s>", c.Closed, c.Charset, c.Coll, renderMap(c.Vars), c.Unused, shared, actual)
 	}
 	return sb.String()
 }
@@ -317,7 +328,8 @@ func (w *world) key(hist []Ev) string {
 // settings as the proxy holds them (charset, collation, session variables; nothing else of
 // a SessionExecutor changes under this alphabet) and its reference state, (b) the pool
 // queue: for each parked connection, in queue order, the proxy's belief (charset,
-// collation, variables, variables queued for a reset to DEFAULT) and the real
+// collation, variables, variables queued for a reset to DEFAULT, Variable objects shared with a
+// session object) and the real
 // backend state, empty slots, (c) the pending injected rejection and the faults used so
 // far (the budget). Connection ids are not part of the key (renamed away).
 func replay(cfg Config, hist []Ev) (res xstate.Result, trace []string) {
@@ -612,6 +624,9 @@ func main() {
 		cfgs = []Config{
 			{Name: "2clients-cap1", Sessions: 2, Capacity: 1, Cmds: small, Faults: 1, Depth: 5},
 			{Name: "2clients-cap2", Sessions: 2, Capacity: 2, Cmds: small, Faults: 1, Depth: 4},
+			// value changes of ONE variable on one pooled connection: the connection carries v=x,
+			// a client with v=y syncs ("both set, values differ"), then changes v again
+			{Name: "2clients-cap1-value-change", Sessions: 2, Capacity: 1, Cmds: []string{"L5", "L9", "Q"}, Faults: 0, Depth: 6},
 			{Name: "2clients-cap1-charset-vars", Sessions: 2, Capacity: 1, Cmds: []string{"CR", "N0", "N2", "Q"}, Faults: 0, Depth: 5},
 		}
 	} else {
@@ -621,6 +636,8 @@ func main() {
 			{Name: "2clients-cap1-full", Sessions: 2, Capacity: 1, Cmds: full, Faults: 1, Depth: 5},
 			{Name: "3clients-cap2-full", Sessions: 3, Capacity: 2, Cmds: full, Faults: 1, Depth: 4},
 			{Name: "3clients-cap1", Sessions: 3, Capacity: 1, Cmds: small, Faults: 1, Depth: 5},
+			{Name: "2clients-cap1-value-change", Sessions: 2, Capacity: 1, Cmds: []string{"L5", "L9", "LD", "Q"}, Faults: 0, Depth: 8},
+			{Name: "2clients-cap2-value-change", Sessions: 2, Capacity: 2, Cmds: []string{"L5", "L9", "Q"}, Faults: 0, Depth: 7},
 		}
 	}
 	var totalStates, totalTrans int64
